@@ -18,7 +18,7 @@ import mtscomp
 
 NS = 1300
 NWINDOW = 600
-ASSIGN = [0, 1, 1, 1]            # four sites on two shanks of different size (+ sync)
+ASSIGN = [1, 3, 3, 3]            # four sites on two shanks of different size, shank numbers not 0..k-1 (+ sync)
 RATIO = 12
 
 
@@ -240,10 +240,14 @@ class ConvModel(object):
                         sr = spikeglx.Reader(f, sort=False)
                         shape = tuple(sr.shape)
                         got = np.array(sr._raw[0:sr.ns]) if f.endswith("cbin") else np.array(sr._raw[:, :])
+                        shkey = sr.meta.get("NP2.4_shank")
+                        typ = sr.type
                         sr.close()
                     except Exception as e:
                         prob.append("shank %d: %s does not open: %s: %s" % (sh, os.path.basename(f), type(e).__name__, e))
                         continue
+                    if shkey is None or int(shkey) != sh or typ != band:
+                        prob.append("shank %d: %s metadata says shank %r, stream %r" % (sh, os.path.basename(f), shkey, typ))
                     if shape != exp_shape or got.shape != exp_shape:
                         prob.append("shank %d: %s has shape %r / content %r, expected %r" % (sh, os.path.basename(f), shape, got.shape, exp_shape))
                     elif band == "ap" and not np.array_equal(got, data[:, cols]):
